@@ -32,6 +32,10 @@ pub struct SimCfg {
     pub probe: bool,
     /// fabricate the age of a stored Pending record (seconds), C11 R11d
     pub age_pending_secs: Option<u64>,
+    /// C09: age stored Pending records by this much before every probe
+    pub probe_age_secs: Option<u64>,
+    /// C09: probe in the same process lifetime instead of restarting first
+    pub probe_same_process: bool,
 }
 
 #[derive(Clone, Copy, Debug, PartialEq, Eq, Hash)]
@@ -226,6 +230,7 @@ pub struct World {
     pub cooperative: bool,
     /// age (seconds) fabricated into stored Pending records at the last restart (R11d)
     pub aged: Option<u64>,
+    pub same_process_probes: u32,
     pub part_weight: u64,
     pub target: Option<String>,
     pub rng: crate::prng::Rng,
@@ -295,8 +300,16 @@ impl World {
     pub fn violate(&mut self, property: &'static str, rule: &'static str, signature: String, detail: String) {
         let step = self.step;
         self.ev(|| format!("VIOLATION {rule} {signature}: {detail}"));
-        if self.violations.len() < 32 {
+        if self.violations.len() < 32 && !self.violations.iter().any(|v| v.signature == signature) {
             self.violations.push(Violation { rule, property, signature, detail, step });
+        }
+    }
+
+    /// a violation of the property under check has been recorded (any violation if no target)
+    pub fn target_violated(&self) -> bool {
+        match &self.target {
+            Some(t) => self.violations.iter().any(|v| v.property == t.as_str()),
+            None => !self.violations.is_empty(),
         }
     }
 
